@@ -69,12 +69,17 @@ TRet == /\ IsEvent("Ret")
         /\ Clause("ret.iterations_bounded", niters <= c.maxIters + 1)
         /\ Clause("ret.fixed_count", (c.method = "fixed" /\ stopAt > 0) => niters = c.maxIters)
         /\ UNCHANGED vars /\ Consume
-TRaise == /\ IsEvent("Raise")
+\* an input that is not a single signal is rejected (ValueError from the layout checks, before the loop is entered):
+\* C19's matter, accepted here - for a valid layout the same exception is NOT accepted
+InputRejected == l = 2 /\ Ev.type = "ValueError" /\ niters = 0 /\ Traces[tid][1].valid_layout = 0
+TRejectInput == /\ IsEvent("Raise") /\ InputRejected /\ pc = "top"
+                /\ pc' = "raised" /\ UNCHANGED <<niters, proto, flag, stopAt, missAt, fired, evald, efired, c>> /\ Consume
+TRaise == /\ IsEvent("Raise") /\ ~InputRejected
           /\ Clause("raise.documented_error", Ev.type = "EMDSiftCovergeError")
           /\ Top
           /\ Clause("raise.only_beyond_limit", pc' = "raised")
           /\ UNCHANGED c /\ Consume
-TSteps == TBegin \/ TTop \/ TEnv \/ TStop \/ TEnergy \/ TRet \/ TRaise
+TSteps == TBegin \/ TTop \/ TEnv \/ TStop \/ TEnergy \/ TRet \/ TRaise \/ TRejectInput
 
 \* trace finished: go to the next one (fresh loop state)
 NextTrace == /\ tid <= NT /\ l = Len(Traces[tid]) + 1
